@@ -95,6 +95,17 @@ def one_run(kind, i, seed, dense=True):
     if v['status'] == 'ok':
         out['probes'] = v['probes']; out['touched'] = v['touched']; out['rep'] = v['rep']; out['oos_getreg'] = v.get('oos_getreg', 0)
         out['ovl'] = SM.overlap_classes(ops)
+        acts = {}
+        for o in ops:
+            if o['op'] in ('snapshot', 'save', 'restore', 'block'):
+                acts[o['op']] = acts.get(o['op'], 0) + 1
+            if o.get('reuse'):
+                acts['same-instruction-object-stepped-again'] = acts.get('same-instruction-object-stepped-again', 0) + 1
+        if cfg.get('backing'):
+            acts['backing-store:' + ('read-only' if cfg['backing'] == 'read-only' else 'read-write')] = 1
+        if cfg.get('reuse_probes'):
+            acts['read-back-objects-held-across-history'] = 1
+        out['acts'] = acts
     elif v['status'] == 'discard':
         out['reason'] = v['reason']
     else:
@@ -149,6 +160,7 @@ def main(args):
     tally = {}
     samples = []
     viol = []
+    acts_total = {}
     small_done = 0
     modes = {}
     digests = []
@@ -186,6 +198,8 @@ def main(args):
             nontrivial.add(r['hh'])
         for c in r['ovl']:
             ovl[c] = ovl.get(c, 0) + 1
+        for a, n in r.get('acts', {}).items():
+            acts_total[a] = acts_total.get(a, 0) + n
         if 'sample' in r:
             samples.append(r['sample'])
     seen = set()
@@ -233,7 +247,9 @@ def main(args):
         'overlap_classes': dict(sorted(ovl.items())),
         'probe_lines_hit_runs': dict(sorted(probes_hit.items())),
         'probe_lines_never_hit': sorted(set(probe_sites()) - set(probes_hit)),
-        'faults_fired': {'none': 'C07 has no fault dimension: the simulated nondeterminism is the operation history itself'},
+        # no storage or network fault exists for a symbolic machine; what the simulator injects are the client's own moves
+        # around the machine object (DESIGN 2.5), counted over the histories that decided
+        'faults_fired': dict(sorted(acts_total.items())) or {'none': 'no client action drawn in this batch'},
         'out_of_scope_observations': {'arith_mode_mismatches (C05/C06 territory, tallied, never decide)': tally,
                                       'histories where get_reg() disagrees with the (correct) pool value (accessor outside the property, tallied)': getreg_oos},
         'samples': samples,
